@@ -9,6 +9,7 @@ import (
 	"log/slog"
 	"net"
 	"sync"
+	"sync/atomic"
 	"time"
 )
 
@@ -22,7 +23,7 @@ type connection struct {
 	activeMsgCompleteChan chan *Message
 	reissuePackChan       chan *Message
 	// platformSerialNumber 平台流水号 到了math.MaxUint16后+1重新变成0
-	platformSerialNumber uint16
+	platformSerialNumber atomic.Uint32
 	joinFunc             func(message *Message, activeChan chan<- *ActiveMessage) (string, error)
 	leaveFunc            func(key string)
 	key                  string
@@ -41,7 +42,6 @@ func newConnection(conn *net.TCPConn, handles map[consts.JT808CommandType]Handle
 		activeMsgChan:         make(chan *ActiveMessage, 3),
 		activeMsgCompleteChan: make(chan *Message, 3),
 		reissuePackChan:       make(chan *Message, 3),
-		platformSerialNumber:  uint16(0),
 		joinFunc:              join,
 		leaveFunc:             leave,
 		filter:                filter,
@@ -76,13 +76,13 @@ func (c *connection) reader() {
 				if errors.Is(err, net.ErrClosed) || errors.Is(err, io.EOF) {
 					slog.Debug("connection close",
 						slog.Bool("join", join),
-						slog.Any("platform num", c.platformSerialNumber),
+						slog.Any("platform num", uint16(c.platformSerialNumber.Load())),
 						slog.Any("err", err))
 					return
 				}
 				slog.Error("read data",
 					slog.Bool("join", join),
-					slog.Any("platform num", c.platformSerialNumber),
+					slog.Any("platform num", uint16(c.platformSerialNumber.Load())),
 					slog.Any("err", err))
 				return
 			} else if n > 0 {
@@ -95,7 +95,7 @@ func (c *connection) reader() {
 				if err != nil {
 					slog.Error("parse data",
 						slog.Bool("join", join),
-						slog.Any("platform num", c.platformSerialNumber),
+						slog.Any("platform num", uint16(c.platformSerialNumber.Load())),
 						slog.String("effective data", fmt.Sprintf("%x", effectiveData)),
 						slog.Any("err", err))
 					return
@@ -146,6 +146,7 @@ func (c *connection) write() {
 			verifAt(c, "W.stop", len(record))
 			c.failPendingActive(record)
 			clear(record)
+			clear(c.handles) // 写协程退出后不再查询handles了 (读协程里清理会和写协程的查询产生数据竞争)
 			verifAt(c, "W.exit")
 			return
 		case activeMsg, ok := <-c.activeMsgChan: // 平台主动下发的
@@ -188,7 +189,6 @@ func (c *connection) stop() {
 		verifAt(c, "S.stopClosed")
 		_ = c.conn.Close()
 		verifAt(c, "S.connClosed")
-		clear(c.handles)
 		// msgChan等数据通道不关闭: 写协程 超时协程 会话管理协程还可能往里面发送 关闭会导致send on closed channel
 		// 写协程通过stopChan退出 退出时让还在等待的下发请求返回错误
 		verifAt(c, "S.chansClosed")
@@ -413,8 +413,6 @@ func (c *connection) onWriteExecutionEvent(msg *Message) {
 }
 
 func (c *connection) curSeq() uint16 {
-	defer func() {
-		c.platformSerialNumber++
-	}()
-	return c.platformSerialNumber
+	// 读协程打印日志的时候也会读取这个值 所以用原子操作
+	return uint16(c.platformSerialNumber.Add(1) - 1)
 }
